@@ -7,7 +7,7 @@ import time
 
 from vlib import Ctx, Inconclusive, main_wrap, pick, SPEC, log
 
-INVS = ("DictionariesEqual HeadDecodable ReadEqualsWrite InOrder NoInterleave NoDecodeFailure "
+INVS = ("NoReaderRefused DictionariesEqual HeadDecodable ReadEqualsWrite InOrder NoInterleave NoDecodeFailure "
         "WindowIsSuffix NoWindowWithoutTakeover")
 
 CFG_TMPL = """SPECIFICATION Spec
@@ -20,6 +20,8 @@ CONSTANTS
   WinLock = %(winlock)s
   Fault = "%(fault)s"
   ReadPolicy = "%(policy)s"
+  StrictBackend = %(strict)s
+  DrainAfterDecode = %(drain)s
   Modes <- %(modes)s
   Levels <- %(levels)s
   Bits <- %(bits)s
@@ -30,10 +32,10 @@ CHECK_DEADLOCK FALSE
 """
 
 DEFAULTS = dict(maxmsgs=3, classes="ClassesAll", nwriters=1, conc="FALSE", excl="TRUE", winlock="TRUE", fault="none",
-                policy="any", modes="ModesCt", levels="LevelsOne", bits="BitsOne", view="", invs=INVS, constraint="")
+                policy="any", strict="TRUE", drain="TRUE", modes="ModesCt", levels="LevelsOne", bits="BitsOne", view="", invs=INVS, constraint="")
 
 MON_CONSTS = {"MaxMsgs": 0, "Classes": "{}", "NWriters": 4, "Conc": "FALSE", "Excl": "TRUE", "WinLock": "TRUE",
-              "Fault": '"none"', "ReadPolicy": '"any"'}
+              "Fault": '"none"', "ReadPolicy": '"any"', "StrictBackend": "TRUE", "DrainAfterDecode": "TRUE"}
 
 CONTENTS = ["rep", "rnd", "mix"]
 RCHUNKS = [0, 1, 7, 4096, 65536]
@@ -130,7 +132,7 @@ def to_scenario(ctx, sid, script, idx, kind="wswindow", fam="seq", bits_override
             st["n"] = n
         steps.append(st)
     p = {"mode": mode, "level": level, "bits": bits, "content": CONTENTS[idx % 3], "rchunk": rnd.choice(RCHUNKS),
-         "seed": rnd.randrange(1, 250), "fam": fam, "excl": excl}
+         "seed": rnd.randrange(1, 250), "fam": fam, "excl": excl, "backend": "gorilla" if idx % 4 == 3 else "coder"}
     return {"id": sid, "kind": kind, "p": p, "steps": steps}
 
 
@@ -142,7 +144,7 @@ def race_scenarios(ctx, n_ws, n_quic):
         mode = ["ct", "ct", "pm", "off"][i % 4]
         p = {"mode": mode, "level": 0 if mode == "off" else rnd.choice([1, 2, 5, 6, 9]), "bits": rnd.choice([0, 1, 8, 9, 15, 32]) if mode == "ct" else 0,
              "content": CONTENTS[i % 3], "rchunk": rnd.choice(RCHUNKS), "seed": rnd.randrange(1, 250), "fam": "race", "excl": 1,
-             "writers": 2 + i % 3, "per": rnd.choice([3, 5, 8]), "lens": rnd.choice(lens_pool)}
+             "writers": 2 + i % 3, "per": rnd.choice([3, 5, 8]), "lens": rnd.choice(lens_pool), "backend": "gorilla" if i % 5 == 4 else "coder"}
         scs.append({"id": "C13/race/%d" % i, "kind": "wswindow", "p": p, "steps": []})
     for i in range(n_quic):
         mode = ["pm", "off"][i % 2]
@@ -175,7 +177,7 @@ def big_scenarios(ctx):
             if len(lens) % 2 == 1:
                 steps.append({"a": "read"})
             p = {"mode": mode, "level": level, "bits": bits, "content": CONTENTS[i % 3], "rchunk": [0, 4096, 65536][i % 3],
-                 "seed": 40 + i, "fam": "seq", "excl": 1}
+                 "seed": 40 + i, "fam": "seq", "excl": 1, "backend": "gorilla" if i % 3 == 2 else "coder"}
             scs.append({"id": "C13/big/%s/%d" % ("ws" if kind == "wswindow" else "quic", i), "kind": kind, "p": p, "steps": steps})
     return scs
 
@@ -188,6 +190,9 @@ def run():
         "DEFLATE is not modelled: decode succeeds iff the frame's dictionary equals the reader's; byte fidelity for levels 1-9 is "
         "the oracle of the replay (Read result == written bytes) and of the independent decoder (compress/flate with its own "
         "dictionary bookkeeping: last min(total, 2^windowBits) bytes of the concatenated plaintext)",
+        "the in-memory websocket.Conn keeps the two reader contracts of the backends: strict (coder - the default -, nhooyr: the next Reader() "
+        "is refused until the previous message's reader reported the end of the message; a message written through Writer() is data frames "
+        "plus an empty final frame, so the end is only seen by a Read call after the last data byte) and lenient (gorilla: the rest is discarded); "
         "the in-memory websocket.Conn serialises Writer() until Close() exactly like the default backend (github.com/coder/websocket); "
         "Transport.Write takes no lock of its own, so writer exclusivity is an assumption about the backend, not a fact about the transport "
         "(WsWindowConc with Excl=FALSE violates NoInterleave/HeadDecodable in the model)",
@@ -200,6 +205,10 @@ def run():
     retry(ctx.l1, "WsWindow", "WsWindow_q.cfg")
     retry(ctx.l1, "WsWindow", "WsWindowConc_q.cfg")
     retry(ctx.l1, "StreamFraming", "StreamFraming_q.cfg")
+    # the reader contract of the backends: before the repair (DrainAfterDecode = FALSE) a strict backend (coder, nhooyr) refuses the
+    # second compressed message; a lenient one (gorilla) does not care
+    sensitivity(ctx, "nodrain_strict", "NoReaderRefused", modes="ModesPmCt", drain="FALSE", strict="TRUE")
+    retry(ctx.l1, "WsWindow", write_cfg("nodrain_lenient", view="VIEW StView", modes="ModesAll", drain="FALSE", strict="FALSE"))
     if not q:
         retry(ctx.l1, "WsWindow", "WsWindow_t.cfg", timeout=1200)
         retry(ctx.l1, "WsWindow", "WsWindowConc_t.cfg", timeout=1200)
